@@ -395,3 +395,22 @@ Section IdealProofs.
     rewrite N.eqb_refl. reflexivity.
   Qed.
 End IdealProofs.
+
+(** the hypotheses of [sign_then_recover] / [tx_binding] are satisfiable: with the identity as
+    "hash" and an oracle knowing one signature (r = 1, s = 1, recid = 0) by address 7 over the
+    chain-id-24 preimage of a concrete transaction, Sender returns 7; under chain id 25 the
+    same transaction is ErrInvalidChainId; with the amount changed the sender is lost. *)
+Definition ex_tx : tx :=
+  {| t_nonce := 1; t_price := 1; t_gas := 21000; t_to := Some (repeat 0 19 ++ [1]); t_amount := 5;
+     t_payload := []; t_v := 35 + 2 * 24; t_r := 1; t_s := 1 |}.
+Definition ex_oracle (r s v : N) : option (N * bytes) :=
+  if (r =? 1) && (s =? 1) && (v =? 0) then Some (7, tx_sighash_preimage (ChainIDSigner 24) ex_tx) else None.
+
+Example sender_example :
+  sender ex_oracle (fun b => b) (ChainIDSigner 24) ex_tx = SOk 7 /\
+  sender ex_oracle (fun b => b) (ChainIDSigner 25) ex_tx = SErrChainId /\
+  sender ex_oracle (fun b => b) Homestead ex_tx = SErrInvalidSig /\
+  sender ex_oracle (fun b => b) (ChainIDSigner 24)
+    {| t_nonce := 1; t_price := 1; t_gas := 21000; t_to := Some (repeat 0 19 ++ [1]); t_amount := 6;
+       t_payload := []; t_v := 35 + 2 * 24; t_r := 1; t_s := 1 |} = SOther.
+Proof. vm_compute. repeat split. Qed.
